@@ -1,5 +1,6 @@
 import Nv.Model.C02
 import Nv.Proofs.C02Inv4
+import Nv.Proofs.C02Dl4
 /-!
 C02 — property theorems for `syncx/keylock` (model: `Nv.Model.C02`, invariant: `Nv.Proofs.C02Inv*`).
 
@@ -231,50 +232,140 @@ theorem group_order_consistent (hc : Proved c) (hsh : ∀ k, sh k < n) (keys : L
 
 /-! ### deadlock freedom
 
-Full statement (NOT proved; kept for the record):
+Callers are *disciplined* for a rank function when every call's keys ascend in rank in the order the locker takes
+them (`acqOrder`) and lie above everything the caller already holds (`okAct`). `group_order_rank` shows that
+duplicate-free lists sorted by one global key order `G` are disciplined for the rank `(shard index, G)` — for all
+four lockers, whatever the shard count and routing. Progress is stated as "no stuck state": whenever some call is
+outstanding, a step other than a new call is enabled — an outstanding call can proceed, or a thread outside any
+call holds a lock and can start unlocking it. That enabled steps are eventually taken (fair scheduling; holders
+eventually unlock) is the assumption of the property's liveness reading. -/
 
-  theorem kl_deadlock_free (hc : Proved c) (hsh : ∀ k, sh k < n) (hr : (lts c n sh).Reach s)
-      (G : Key → Nat) (hG : Function.Injective G)
-      (hord : ∀ t, the keys `t` still has to lock are strictly ascending in (sh k, G k) and above every key `t` holds)
-      (hbusy : ∃ t, (s.th t).phase ≠ .idle) :
-      ∃ t, ((s.th t).phase ≠ .idle ∧ ∃ a s', actor a = t ∧ step c n sh s a = some s') ∨
-           ((s.th t).phase = .idle ∧ (s.th t).held ≠ [])      -- a holder that can still unlock
+/-- states reachable when every call is disciplined for `rank` -/
+inductive ReachOrd (c : Cfg) (n : Nat) (sh : Key → Nat) (rank : Key → Nat) : State → Prop
+  | init : ReachOrd c n sh rank State.init
+  | step {s a s'} : ReachOrd c n sh rank s → okAct c n sh rank s a → step c n sh s a = some s' → ReachOrd c n sh rank s'
 
-What is proved: `group_order_consistent` (all callers acquire in the one order (shard, list order)), the
-"never blocked under a table mutex" and locality theorems above, and the rank argument itself in abstract form
-(`kl_deadlock_free_partial`): if every blocked thread waits for a thread that holds a key of strictly smaller rank
-than the key the waiter awaits, and blocked threads that hold something await a key of greater rank than what they
-hold, then whenever somebody is blocked some thread that is waited for is not blocked.
-Missing: the instantiation of `waitsFor` from the RWMutex state — it needs three more conjuncts in the
-invariant (`wOwner = some u` ⇒ `u` is locking this object in write mode; `tokens ≤ |pendR|`, with equality when
-`wOwner = none`; members of `pendR`/`pendW` are threads whose todo list starts with this object). -/
+theorem reachOrd_reach {rank : Key → Nat} (h : ReachOrd c n sh rank s) : (lts c n sh).Reach s := by
+  induction h with
+  | init => exact LTS.Reach.init
+  | step _ _ hs ih => exact LTS.Reach.step ih hs
 
-/-- the rank argument (abstract): no cycle of blocked threads when waiting goes up in rank -/
-theorem kl_deadlock_free_partial (blocked : Tid → Prop) (awaits : Tid → Nat) (waitsFor : Tid → Tid → Prop) (bound : Nat)
-    (hbound : ∀ t, blocked t → awaits t ≤ bound)
-    (hwait : ∀ t, blocked t → ∃ u, waitsFor t u ∧ (blocked u → awaits t < awaits u))
-    (t : Tid) (ht : blocked t) : ∃ v u, blocked v ∧ waitsFor v u ∧ ¬ blocked u := by
-  have key : ∀ d t, blocked t → bound - awaits t ≤ d → ∃ v u, blocked v ∧ waitsFor v u ∧ ¬ blocked u := by
-    intro d
-    induction d with
-    | zero =>
-      intro t ht hd
-      obtain ⟨u, hw, hu⟩ := hwait t ht
-      refine ⟨t, u, ht, hw, fun hbu => ?_⟩
-      have := hu hbu
-      have := hbound u hbu
-      have := hbound t ht
-      omega
-    | succ d ih =>
-      intro t ht hd
-      obtain ⟨u, hw, hu⟩ := hwait t ht
-      by_cases hbu : blocked u
-      · have := hu hbu
-        have := hbound u hbu
-        exact ih u hbu (by omega)
-      · exact ⟨t, u, ht, hw, hbu⟩
-  exact key (bound - awaits t) t ht (Nat.le_refl _)
+theorem reachOrd_ordered {rank : Key → Nat} (h : ReachOrd c n sh rank s) : Ordered rank s := by
+  induction h with
+  | init => exact ordered_init rank
+  | step _ hok hs ih => exact ordered_step ih hok hs
 
+/-- steps that work off existing obligations (everything except starting a new Lock/RLock/Locks/RLocks call) -/
+def isProgress : Act → Prop
+  | .call .. => False
+  | _ => True
+
+/-- **no deadlock (core)**: if a disciplined history has put some thread to sleep inside a lock call, then some
+thread is not asleep and is either inside a call (it has an enabled step) or holds a lock (it can unlock) -/
+theorem kl_blocked_implies_mover (hc : Proved c) (hsh : ∀ k, sh k < n) {rank : Key → Nat}
+    (hr : ReachOrd c n sh rank s) {t : Tid} (hb : blockedT s t) :
+    ∃ u, ¬ blockedT s u ∧ ((s.th u).phase ≠ .idle ∨ (s.th u).held ≠ []) := by
+  obtain ⟨hI, h2⟩ := inv12_reach hc n sh hsh s (reachOrd_reach hr)
+  obtain ⟨R, hR⟩ := rank_bound rank s.next s.table hI.tRange hI.tInj
+  obtain ⟨m, all, k, o, rest, hph, hbl⟩ := hb
+  exact unblocked_exists hI h2 rank (reachOrd_ordered hr) R hR (R - rank k) t hph hbl (Nat.le_refl _)
+
+/-- **deadlock freedom**: in every state of a disciplined history in which some call is outstanding, a progress step
+is enabled (any number of threads, keys and shards; any interleaving; any wake-up order) -/
+theorem kl_deadlock_free (hc : Proved c) (hsh : ∀ k, sh k < n) {rank : Key → Nat}
+    (hr : ReachOrd c n sh rank s) (hbusy : ∃ t, (s.th t).phase ≠ .idle) :
+    ∃ a s', isProgress a ∧ step c n sh s a = some s' := by
+  have hI := (inv12_reach hc n sh hsh s (reachOrd_reach hr)).1
+  obtain ⟨t, ht⟩ := hbusy
+  have mover : ∃ u, ¬ blockedT s u ∧ ((s.th u).phase ≠ .idle ∨ (s.th u).held ≠ []) := by
+    by_cases hb : blockedT s t
+    · exact kl_blocked_implies_mover hc hsh hr hb
+    · exact ⟨t, hb, .inl ht⟩
+  obtain ⟨u, hnb, hu⟩ := mover
+  by_cases hidle : (s.th u).phase = .idle
+  · -- outside any call and holding something: it can start unlocking
+    have hne : (s.th u).held ≠ [] := by
+      rcases hu with h | h
+      · exact absurd hidle h
+      · exact h
+    obtain ⟨e, he⟩ := List.exists_mem_of_ne_nil _ hne
+    obtain ⟨k, o, m⟩ := e
+    have hok : uncallOk s u m [k] := ⟨hidle, by simp, by
+      intro k' hk'; simp only [List.mem_singleton] at hk'; subst hk'; exact ⟨o, he⟩⟩
+    refine ⟨.uncall u m [k], setTh s u { s.th u with phase := .rel m (groups c n sh [k]) }, trivial, ?_⟩
+    simp [step, hI.noFault, hok]
+  · obtain ⟨a, s', ha, hs⟩ := can_step (c := c) (n := n) (sh := sh) hI.noFault u hidle hnb
+    refine ⟨a, s', ?_, hs⟩
+    cases a with
+    | call t' m keys =>
+      -- `can_step` never returns a call
+      exfalso
+      simp only [step, hI.noFault, Bool.false_eq_true, if_false] at hs
+      split at hs
+      · next hok => simp only [actor] at ha; subst ha; exact hidle hok.1
+      · cases hs
+    | _ => trivial
+
+theorem lex_rank_lt {B : Nat} {G : Key → Nat} {a b : Key} (hB : G a < B) (h : sh a < sh b) :
+    sh a * B + G a < sh b * B + G b := by
+  have h1 : (sh a + 1) * B ≤ sh b * B := Nat.mul_le_mul_right B h
+  rw [Nat.succ_mul] at h1
+  omega
+
+/-- **one global key order is enough**: a duplicate-free list that is sorted by a global order `G` is taken by every
+locker in ascending `(shard index, G)` rank -/
+theorem group_order_rank (hc : Proved c) (G : Key → Nat) (B : Nat) (keys : List Key)
+    (hB : ∀ k ∈ keys, G k < B) (hsorted : keys.Pairwise (fun a b => G a < G b)) :
+    (acqOrder c n sh keys).Pairwise (fun a b => sh a * B + G a < sh b * B + G b) := by
+  unfold acqOrder
+  rw [groups_of_proved hc, flatten_groupsAsc]
+  have key : ∀ (is : List Nat), is.Pairwise (· < ·) →
+      (is.flatMap (fun i => keys.filter (fun k => sh k = i))).Pairwise
+        (fun a b => sh a * B + G a < sh b * B + G b) := by
+    intro is
+    induction is with
+    | nil => intro _; simp
+    | cons i is ih =>
+      intro h
+      rw [List.pairwise_cons] at h
+      simp only [List.flatMap_cons]
+      rw [List.pairwise_append]
+      refine ⟨?_, ih h.2, ?_⟩
+      · have hsub : (keys.filter (fun k => sh k = i)).Pairwise (fun a b => G a < G b) :=
+          hsorted.sublist List.filter_sublist
+        have hall : ∀ a ∈ keys.filter (fun k => sh k = i), sh a = i := by
+          intro a ha; simpa using (List.mem_filter.1 ha).2
+        -- same shard: rank order is the order of G
+        have : ∀ l : List Key, (∀ a ∈ l, sh a = i) → l.Pairwise (fun a b => G a < G b) →
+            l.Pairwise (fun a b => sh a * B + G a < sh b * B + G b) := by
+          intro l
+          induction l with
+          | nil => intro _ _; exact List.Pairwise.nil
+          | cons x l ihl =>
+            intro hx hp
+            rw [List.pairwise_cons] at hp ⊢
+            refine ⟨?_, ihl (fun a ha => hx a (by simp [ha])) hp.2⟩
+            intro b hb
+            have e1 := hx x (by simp)
+            have e2 := hx b (by simp [hb])
+            have := hp.1 b hb
+            rw [e1, e2]; omega
+        exact this _ hall hsub
+      · intro a ha b hb
+        have ha' := List.mem_filter.1 ha
+        rw [mem_flatMap_filter] at hb
+        have hlt : sh a < sh b := by
+          have : sh a = i := by simpa using ha'.2
+          rw [this]; exact h.1 _ hb.2
+        exact lex_rank_lt (hB a ha'.1) hlt
+  exact key _ List.pairwise_lt_range
+
+/-- a thread that holds nothing and calls with a duplicate-free, `G`-sorted list is disciplined for `(shard, G)` -/
+theorem okAct_of_sorted (hc : Proved c) (G : Key → Nat) (B : Nat) (t : Tid) (m : Mode) (keys : List Key)
+    (hB : ∀ k ∈ keys, G k < B) (hsorted : keys.Pairwise (fun a b => G a < G b)) (hnone : (s.th t).held = []) :
+    okAct c n sh (fun k => sh k * B + G k) s (.call t m keys) := by
+  refine ⟨group_order_rank hc G B keys hB hsorted, ?_⟩
+  intro h hh; simp [heldKeys, hnone] at hh
 
 /-! ### non-vacuity and negation witnesses (concrete runs of the transition system, single locker, key 0) -/
 
@@ -321,5 +412,39 @@ theorem witness_afterBlock_two_writers :
 theorem witness_never_leaks :
     ((single ⟨.never, .beforeBlock, .asc⟩).run State.init (lockNow 0 .w ++ unlockNow 0 .w)).map
       (fun s => (s.table 0, (s.th 0).held)) = some (some 0, []) := by decide
+
+
+/-! non-vacuity of the deadlock theorem: a disciplined run (rank = key id) exists in which a thread is asleep -/
+
+instance (c : Cfg) (n : Nat) (sh rank : Key → Nat) (s : State) (a : Act) : Decidable (okAct c n sh rank s a) := by
+  cases a <;> unfold okAct <;> exact inferInstance
+
+/-- run a list of actions, checking the discipline at every step -/
+def runOk (c : Cfg) (n : Nat) (sh rank : Key → Nat) : State → List Act → Option State
+  | s, [] => some s
+  | s, a :: as =>
+    if okAct c n sh rank s a then
+      match step c n sh s a with
+      | none => none
+      | some s' => runOk c n sh rank s' as
+    else none
+
+theorem reachOrd_of_runOk {rank : Key → Nat} : ∀ (as : List Act) (s s' : State),
+    ReachOrd c n sh rank s → runOk c n sh rank s as = some s' → ReachOrd c n sh rank s'
+  | [], s, s', hr, h => by simp [runOk] at h; subst h; exact hr
+  | a :: as, s, s', hr, h => by
+    simp only [runOk] at h
+    split at h
+    · next hok =>
+      split at h
+      · cases h
+      · next s1 hs1 => exact reachOrd_of_runOk as s1 s' (ReachOrd.step hr hok hs1) h
+    · cases h
+
+/-- W0 holds key 0, W1 sleeps on it:
+the run is disciplined, W1 is asleep (its lock step is not enabled), and W0 can move -/
+example : ((runOk cfgToday 1 (fun _ => 0) id State.init (lockNow 0 .w ++ lockPark 1 .w)).bind
+    (fun s => some (decide ((stepLock cfgToday s 1).isNone ∧ (s.th 0).held = [(0, 0, .w)] ∧ (s.th 1).phase ≠ .idle)))) =
+    some true := by decide
 
 end Nv.C02
